@@ -32,19 +32,24 @@ type qdg struct {
 // UDPConn is a simulated unconnected UDP socket. It replaces the
 // net.PacketConn returned by net.ListenPacket.
 type UDPConn struct {
-	w        *World
-	ID       int
-	local    *net.UDPAddr
-	bindIP   net.IP
-	q        []qdg
-	closed   bool
-	rdl      deadline
-	readers  []*simrt.Task
-	Foreign  bool // created by the harness
-	Created  time.Duration
-	ClosedAt time.Duration
-	NSent    int
-	NRecv    int
+	w         *World
+	ID        int
+	local     *net.UDPAddr
+	bindIP    net.IP
+	q         []qdg
+	closed    bool
+	rdl       deadline
+	readers   []*simrt.Task
+	Foreign   bool // created by the harness
+	Created   time.Duration
+	ClosedAt  time.Duration
+	NSent     int
+	NRecv     int
+	WriteErrs int
+	// ReadLog lists, in order, the datagram copies returned by ReadFrom.
+	ReadLog []*DgramRec
+	// LastSent is the ledger record of the most recent WriteTo on this socket.
+	LastSent *DgramRec
 }
 
 var _ net.PacketConn = (*UDPConn)(nil)
@@ -152,6 +157,7 @@ func (c *UDPConn) ReadFromUDP(p []byte) (int, *net.UDPAddr, error) {
 			c.q = c.q[1:]
 			n := copy(p, d.data)
 			c.NRecv++
+			c.ReadLog = append(c.ReadLog, d.rec)
 			simrt.Log("udp:read", int64(c.ID), int64(n))
 			from := *d.from
 			return n, &from, nil
@@ -193,14 +199,17 @@ func (c *UDPConn) WriteToUDP(p []byte, ua *net.UDPAddr) (int, error) {
 		return 0, opErr("write", "udp", ua, syscall.EMSGSIZE)
 	}
 	faulty := !c.Foreign || !w.FaultOnlyHost
+	c.LastSent = nil
 	if !c.Foreign && w.UDPWriteErr > 0 && simrt.S.Fault.Permille(w.UDPWriteErr) {
 		simrt.Fault("udp_write_error")
+		c.WriteErrs++
 		return 0, opErr("write", "udp", ua, syscall.ENETUNREACH)
 	}
 	w.nextDg++
 	rec := &DgramRec{ID: w.nextDg, At: simrt.Elapsed(), Seq: simrt.Steps(), From: c.sourceFor(ua.IP), To: &net.UDPAddr{IP: ua.IP, Port: ua.Port, Zone: ua.Zone},
 		FromSock: c, Payload: append([]byte(nil), p...)}
 	w.Dgrams = append(w.Dgrams, rec)
+	c.LastSent = rec
 	c.NSent++
 	simrt.Log("udp:send", int64(c.ID), int64(len(p)))
 	dip := ua.IP
